@@ -54,8 +54,12 @@ func (s *Seq) opBatch(op *Op) {
 		}
 	}
 	chunk := len(objs)
-	if op.K == "bulk" {
+	csize := op.Chunk // what the call is given
+	if op.K == "bulk" && op.Chunk >= 1 {
 		chunk = op.Chunk
+	}
+	if op.K == "bulk" && !op.Flag && csize < 1 {
+		csize, chunk = 1, 1 // histories recorded before chunk size 0 was generated
 	}
 	if chunk < 1 {
 		chunk = 1
@@ -105,7 +109,7 @@ func (s *Seq) opBatch(op *Op) {
 			ch <- o
 		}
 		close(ch)
-		n, err = s.db.InsertOrUpdateBulk(ch, chunk)
+		n, err = s.db.InsertOrUpdateBulk(ch, csize)
 	} else {
 		n, err = s.db.InsertOrUpdateMany(list...)
 	}
